@@ -10,19 +10,6 @@
 namespace Unyt.Ref
 
 def exclC06 : List (String × String) := [
-  -- np.hstack's handler calls np.vstack._implementation
-  ("numpy.hstack", "calls:numpy.vstack"),
-  -- np.put(..., mode=) : *args/**kwargs are accepted and never forwarded
-  ("numpy.put", "dropped:mode"),
-  -- np.stack(..., dtype=, casting=) without out=: **kwargs only forwarded on the out= branch
-  ("numpy.stack", "dropped:dtype"),
-  ("numpy.stack", "dropped:casting"),
-  -- np.einsum(..., dtype=, casting=, order=, optimize=): **kwargs never forwarded
-  ("numpy.einsum", "dropped:**dtype"),
-  ("numpy.einsum", "dropped:**casting"),
-  ("numpy.einsum", "dropped:**order"),
-  ("numpy.einsum", "dropped:optimize"),
-  ("numpy.einsum", "dropped:**kwargs"),
   -- np.apply_over_axes is re-implemented by hand (no expand_dims of reduced results, no kernel call)
   ("numpy.apply_over_axes", "nocall"),
   ("numpy.apply_over_axes", "changed:a"),
@@ -30,5 +17,10 @@ def exclC06 : List (String × String) := [
   -- np.histogramdd(sample) with an (N, D) array: iterated row-wise into a list of N "coordinates"
   ("numpy.histogramdd", "changed:sample")
 ]
+
+/- Repaired upstream by `fix:` commits (fixes/C06-0*.patch) and therefore no longer excluded — a
+   re-introduction breaks `handlers_forward_faithfully` / `handlers_static_faithful`:
+   hstack → vstack's implementation; put dropping mode; stack dropping dtype/casting without out=;
+   einsum dropping dtype/casting/order/optimize. -/
 
 end Unyt.Ref
